@@ -843,6 +843,13 @@ def c05(case: dict, cv: CallView, out: list) -> dict:
         for _, e in a.of("sleep"):
             if not _same_float(e[2], applied):
                 out.append(("C05:sleeper-delay", f"sleeper got {e[2]!r}; strategy returned {raw!r}, applied delay should be {applied!r}"))
+        hs = a.of("handler")
+        if (not hs or (len(hs) == 1 and hs[0][1][4] == "sleep")) and a.first_true_poll() is None and not any(e[0] == "fault" for e in a.ev):
+            # the retry goes ahead: the delay must reach the sleeper the caller configured (zero delays included)
+            sl = a.of("sleep")
+            want_s = expected_where(case.get("placement") or {}, "sleeper", "")
+            if len(sl) != 1 or sl[0][1][1] != want_s:
+                out.append(("C05:sleeper-not-given-the-delay", f"granted retry after attempt {a.n} with delay {applied!r}: sleeper calls {[(x[1][1], x[1][2]) for x in sl]}, expected one call of the {want_s}-level sleeper"))
         for _, e in a.of("log"):
             if e[1] == "retry" and not _same_float(e[2].get("sleep_s"), applied):
                 out.append(("C05:retry-log-delay", f"`retry` log reports sleep_s={e[2].get('sleep_s')!r}, applied delay should be {applied!r}"))
